@@ -496,11 +496,16 @@ type genState struct {
 	nkeys   int
 	pres    []bool // flapping state per key
 	vals    []float64
+	sticky  bool
+	small   bool
 	aligned bool
 }
 
 func (g *genState) step() {
 	d := gen.Pick(g.r, steps)
+	if g.small {
+		d = gen.Pick(g.r, []int64{15 * sec, 30 * sec, min, min, 2 * min})
+	}
 	if !g.aligned && g.r.Chance(1, 3) {
 		d += g.r.Range(-int64(3*ms), int64(3*ms))
 		if d < 0 {
@@ -524,7 +529,9 @@ func (g *genState) evalOp() op {
 	o.QErr = g.r.Chance(1, 25)
 	for k := 0; k < g.nkeys; k++ {
 		// flapping: toggle with a per-draw probability
-		if g.r.Chance(1, 4) {
+		if g.sticky {
+			g.pres[k] = g.pres[k] || k < 2
+		} else if g.r.Chance(1, 4) {
 			g.pres[k] = !g.pres[k]
 		}
 		if g.pres[k] {
@@ -600,7 +607,7 @@ func main() {
 	f := gallina.ParseFlags()
 	meta := gallina.NewMeta("C44", f.Seed, f.Tier)
 	meta.Rule = "fixed corpus timelines + seeded random timelines of 12-45 operations (eval / send / reload with new durations / restart + restore) over 1-4 alert instances; distribution classes are counted on the implementation's observed transitions; a timeline is non-trivial if it contains at least one pending->firing transition or one resolution; distinct by the printed operation list"
-	cf := &gallina.CaseFile{Dir: f.Out, Type: "case", PerShard: 40,
+	cf := &gallina.CaseFile{Dir: f.Out, Type: "case", PerShard: 25,
 		Preamble: "From Coq Require Import List ZArith.\nFrom Verif Require Import model.Alerting corr.CorrC44.\nImport ListNotations.\nOpen Scope Z_scope.\n",
 		Footer:   gallina.StdFooter}
 	expr, err := parser.NewParser(parser.Options{}).ParseExpr("up == 0")
@@ -682,7 +689,7 @@ func main() {
 	}
 
 	// ----- seeded random timelines -----
-	n := f.Count(160, 8000)
+	n := f.Count(160, 4000)
 	for i := 0; i < n; i++ {
 		r := gen.Fork(f.Seed, i)
 		g := &genState{r: r, nkeys: 1 + r.Intn(4), aligned: r.Chance(2, 3)}
@@ -708,10 +715,14 @@ func main() {
 		scratch := &sut{expr: expr, metrics: metrics, ruleLbl: labels.FromStrings("severity", "page")}
 		scratch.newRule(g.hold, g.kff, restored0)
 		acc := &storeAcc{series: map[int64][]ssample{}, prev: map[int64]bool{}}
+		accOn := true
 		push := func(o op) {
 			ops = append(ops, o)
 			ob := scratch.do(o)
-			if o.Kind == "eval" && ob.out == "ok" {
+			if o.Kind == "restart" {
+				accOn = false // the old process is gone: nothing more is written for it
+			}
+			if accOn && o.Kind == "eval" && ob.out == "ok" {
 				acc.add(ob.vec, (o.TS-o.QO)/1e6)
 			}
 		}
@@ -729,6 +740,13 @@ func main() {
 			}
 		}
 		if restartCase {
+			// a calm stretch before the restart so that stored for-state samples are recent
+			g.sticky, g.small = r.Chance(3, 4), true
+			for j := 0; j < 3; j++ {
+				g.step()
+				push(g.evalOp())
+			}
+			g.small = false
 			shape = "timeline-restart"
 			if r.Chance(1, 4) {
 				g.hold = gen.Pick(r, holds)
@@ -758,6 +776,8 @@ func main() {
 			g.now += gen.Pick(r, []int64{0, 3 * ms, 250 * ms, sec})
 			push(op{Kind: "restore", TS: g.now, Tol: gen.Pick(r, []int64{60 * min, 60 * min, 10 * min, 0, 3 * 60 * min}),
 				Grace: gen.Pick(r, []int64{10 * min, 10 * min, min, 0, 30 * sec, 15 * min}), Store: st})
+			g.sticky = false
+			g.small = r.Chance(1, 2)
 			more := 3 + r.Intn(8)
 			for j := 0; j < more; j++ {
 				g.step()
